@@ -45,6 +45,7 @@ var c15Corpus = []struct {
 	{"D33-list-index-negative", HTTPCase{Method: "POST", Target: "/graphql", Form: map[string]string{"operations": `{"query":"{ me { firstName } }","variables":{"fs":[null]}}`, "map": `{"0":["variables.fs.-1"]}`}, Files: map[string]string{"0": "x"}}},
 	{"empty-path", HTTPCase{Method: "POST", Target: "/graphql", Form: map[string]string{"operations": `{"query":"{ me { firstName } }","variables":{"f":null}}`, "map": `{"0":[""]}`}, Files: map[string]string{"0": "x"}}},
 	{"get-ok", HTTPCase{Method: "GET", Target: "/graphql?query=" + url.QueryEscape(`{ me { firstName } }`)}},
+	{"get-bad-variables-good-extensions", HTTPCase{Method: "GET", Target: "/graphql?query=" + url.QueryEscape(`{ me { firstName } }`) + "&variables=true&extensions=" + url.QueryEscape(`{}`)}},
 	{"get-bad-variables", HTTPCase{Method: "GET", Target: "/graphql?query=" + url.QueryEscape(`{ me { firstName } }`) + "&variables=[1]"}},
 	{"put", HTTPCase{Method: "PUT", Target: "/graphql", Body: `{}`}},
 	{"post-unknown-content-type", HTTPCase{Method: "POST", Target: "/graphql", ContentType: "application/xml", Body: `<a/>`}},
@@ -140,14 +141,14 @@ func genHTTPCase(r *rand.Rand) HTTPCase {
 		if r.Intn(6) != 0 {
 			v.Set("query", httpQueries[r.Intn(len(httpQueries))])
 		}
-		if r.Intn(3) == 0 {
-			v.Set("variables", []string{`{"a":1}`, `[1]`, `null`, `{`, `"x"`}[r.Intn(5)])
+		if r.Intn(2) == 0 {
+			v.Set("variables", []string{`{"a":1}`, `[1]`, `null`, `{`, `"x"`, `true`, `{}`}[r.Intn(7)])
 		}
 		if r.Intn(4) == 0 {
 			v.Set("operationName", []string{"A", "B", "Zzz", ""}[r.Intn(4)])
 		}
-		if r.Intn(5) == 0 {
-			v.Set("extensions", []string{`{"persistedQuery":{"version":1,"sha256Hash":"deadbeef"}}`, `null`, `{`, `5`, `{"persistedQuery":null}`}[r.Intn(5)])
+		if r.Intn(3) == 0 {
+			v.Set("extensions", []string{`{"persistedQuery":{"version":1,"sha256Hash":"deadbeef"}}`, `null`, `{`, `5`, `{"persistedQuery":null}`, `{}`}[r.Intn(6)])
 		}
 		hc.Target = "/graphql?" + v.Encode()
 	case k < 6: // other methods
@@ -396,6 +397,15 @@ func (c15) Run(c *Ctx, i int) CaseResult {
 			}
 		}
 	}
+	// GET: a `variables` parameter that is not a JSON object (or null), or an `extensions` parameter that is not
+	// JSON or is a scalar/array, makes the request malformed whatever the other parameters are
+	if hc.Method == "GET" && !hc.Playground {
+		if why := getMalformed(hc.Target); why != "" {
+			if rec.Code < 400 || rec.Code > 499 || served != 0 || calls != 0 {
+				bad("L0.http-status", fmt.Sprintf("malformed GET request (%s) answered with status %d, %d served operations, %d service requests", why, rec.Code, served, calls))
+			}
+		}
+	}
 	if rec.Code >= 400 && rec.Code != 422 && calls != 0 {
 		bad("L0.http-calls", fmt.Sprintf("the request was refused with %d but %d service requests were made", rec.Code, calls))
 	}
@@ -487,3 +497,32 @@ func truncate(s string, n int) string {
 }
 
 func init() { Runners["C15"] = c15{} }
+
+// getMalformed: a reason why the query string of a GET request is malformed, or "" (an under-approximation: only
+// what is malformed beyond doubt)
+func getMalformed(target string) string {
+	u, err := url.Parse(target)
+	if err != nil {
+		return ""
+	}
+	q := u.Query()
+	if vs, ok := q["variables"]; ok {
+		var v interface{}
+		if err := json.Unmarshal([]byte(vs[0]), &v); err != nil {
+			return "variables is not JSON"
+		}
+		if _, isObj := v.(map[string]interface{}); v != nil && !isObj {
+			return "variables is not a JSON object"
+		}
+	}
+	if es, ok := q["extensions"]; ok {
+		var v interface{}
+		if err := json.Unmarshal([]byte(es[0]), &v); err != nil {
+			return "extensions is not JSON"
+		}
+		if _, isObj := v.(map[string]interface{}); v != nil && !isObj {
+			return "extensions is not a JSON object"
+		}
+	}
+	return ""
+}
